@@ -293,21 +293,47 @@ def check_leaf(ctx, g):
         target = add_code_block(bi, b"\x90\xc3")
         add_edge(ir.cfg, target, add_proxy_block(m), ET.Return)
 
+    if g["kind"] == "same-patch":
+        # one Patch object inserted first into a function that calls, then into a leaf function (a scope-wide patch):
+        # the frame built for the first insertion is not the frame of the second
+        target = add_code_block(bi, b"\x90\xc3")
+        add_edge(ir.cfg, target, add_proxy_block(m), ET.Return)
+        add_function(m, "leaf2", target)
+
     @patch_constraints(clobbers_registers={"rax"})
     def p(ictx):
         return "movl $%d, %%eax" % 0x5a5a5a
 
+    the_patch = Patch.from_function(p)
+    if g["kind"] == "explicit":
+        # constraints handed to Patch.from_function win over the decorator's
+        @patch_constraints()
+        def q(ictx):
+            return "movl $%d, %%eax" % 0x5a5a5a
+
+        the_patch = Patch.from_function(q, Constraints(clobbers_registers={"rax"}))
     rc = RewritingContext(m, funcs if funcs is not None else gtirb_functions.Function.build_functions(m))
     if g["kind"] == "orphan":
         # the function in front is visited first and gets a patch too
         rc.insert_at(blocks[0], 0, Patch.from_function(patch_constraints()(lambda ictx: "nop")))
-    rc.insert_at(target, 0, Patch.from_function(p))
+    if g["kind"] == "same-patch":
+        rc.insert_at(blocks[0], 0, the_patch)
+    rc.insert_at(target, 0, the_patch)
     rc.apply()
     text = b"".join(bytes(x.contents) for x in sorted(m.byte_intervals, key=lambda x: x.address))
     md = capstone.Cs(capstone.CS_ARCH_X86, capstone.CS_MODE_64)
     ins = [(i.mnemonic, i.op_str) for i in md.disasm(text, 0x1000)]
+    if g["kind"] == "same-patch":
+        # look at the second insertion only (the leaf function behind the first one)
+        cut = len(ins) - 1 - next(k for k, (mn, op) in enumerate(reversed(ins)) if mn == "mov" and "0x5a5a5a" in op)
+        start = max(k for k in range(cut) if ins[k][0] == "ret") + 1
+        ins = ins[start:]
     first_push = next((k for k, (mn, _) in enumerate(ins) if mn.startswith("push")), None)
     marker = next((k for k, (mn, op) in enumerate(ins) if mn == "mov" and "0x5a5a5a" in op), None)
+    if g["kind"] == "explicit" and (first_push is None or marker is None or first_push > marker):
+        ctx.violation("C16:explicit-constraints-ignored", "Patch.from_function(f, Constraints(clobbers_registers={'rax'})) on a decorated function: "
+                      "rax is not saved around the patch: %s" % (ins[:6],), g)
+        return
     if first_push is None or marker is None or first_push > marker:
         ctx.mismatch("the patch's prologue could not be located in %s" % (ins[:8],), g)
         return
@@ -315,13 +341,13 @@ def check_leaf(ctx, g):
     if g["kind"] == "shared" and not skipped:
         ctx.violation("C16:" + SIG_SHARED_LEAF, "a block shared by a leaf function and a function that calls: the patch pushes at rsp-8 "
                       "without stepping over the red zone first: %s" % (ins[:8],), g)
-    elif g["kind"] != "call" and not skipped:
+    elif g["kind"] not in ("call", "explicit") and not skipped:
         ctx.violation("C16:leaf:red-zone", "function without a call (%s): the patch pushes at rsp-8 without stepping over the red zone first: %s" % (g["kind"], ins[:6]), g)
 
 
 def run(ctx):
-    for k in range(ctx.budget(12, 48)):
-        check_leaf(ctx, {"leaf_case": True, "kind": ["syscall", "ijmp", "plain", "call", "orphan", "shared"][k % 6]})
+    for k in range(ctx.budget(16, 48)):
+        check_leaf(ctx, {"leaf_case": True, "kind": ["syscall", "ijmp", "plain", "call", "orphan", "shared", "same-patch", "explicit"][k % 8]})
     abis = _abi_objs()
     pending = []
     for abiname in ABIS:
